@@ -95,3 +95,47 @@ func abstractAsserts(asserts []*Term) []*Term {
 	}
 	return out
 }
+
+// renameFresh renames the witness variables introduced by the encoding (names containing '!')
+// so that two paths' conditions can be conjoined.
+func renameFresh(t *Term, suffix string, memo map[*Term]*Term) *Term {
+	if r, ok := memo[t]; ok {
+		return r
+	}
+	var r *Term
+	switch t.Op {
+	case "const":
+		r = t
+	case "var":
+		if containsBang(t.Name) {
+			r = mkVar(t.Name+suffix, t.Sort)
+		} else {
+			r = t
+		}
+	default:
+		changed := false
+		args := make([]*Term, len(t.Args))
+		for i, a := range t.Args {
+			args[i] = renameFresh(a, suffix, memo)
+			if args[i] != a {
+				changed = true
+			}
+		}
+		if !changed {
+			r = t
+		} else {
+			r = intern(&Term{Op: t.Op, Sort: t.Sort, Args: args, Re: t.Re, Name: t.Name})
+		}
+	}
+	memo[t] = r
+	return r
+}
+
+func containsBang(s string) bool {
+	for i := 0; i < len(s); i++ {
+		if s[i] == '!' {
+			return true
+		}
+	}
+	return false
+}
